@@ -267,6 +267,8 @@ def rule_alpha(rep, d, dec, enc, helpers=()):
         rep.holds("C13.alpha", enc["name"], "pads to a multiple of 4")
     elif out_mods:
         rep.violates("C13.alpha", enc["name"], "pads to a multiple of 4", where=d.where(enc), detail="the output length is taken modulo something other than 4: " + str([ir.show(m) for m in out_mods]))
+    elif getattr(rep, "group_judged", 0) > 0:
+        rep.holds("C13.alpha", enc["name"], "pads to a multiple of 4", where=d.where(enc), detail="every group of characters is completed to four with '=' (C13.group)")
     else:
         rep.inconclusive("C13.alpha", enc["name"], "pads to a multiple of 4", where=d.where(enc), detail="no `output.size() % 4` padding condition (a padding count derived from the input length needs a different argument)")
     # decode table construction
@@ -524,8 +526,9 @@ def rule_acc(rep, d, dec, enc):
         name = fn["name"]
         if not c["init"]:
             # no counter that starts negative: a different (equally valid) bookkeeping of the pending bits - the constants below do not apply
-            if fn is enc and rule_group(rep, d, enc) > 0:
+            if fn is enc and getattr(rep, "group_judged", 0) > 0:
                 rep.note("%s: no bit accumulator; the groups of characters are decided by bit provenance (C13.group)" % name)
+                rep.counts_as("C13.acc", 8)
                 continue
             rep.inconclusive("C13.acc", name, "accumulator scheme", where=d.where(fn), detail="the `valb` scheme (counter starting at -%d) is not used here" % nout)
             continue
@@ -875,6 +878,8 @@ def run(tier):
         raise cj.AnalysisBroken("anchor functions base64decode/base64encode not found (found %s)" % sorted(fns))
     dec, enc = fns["base64decode"], fns["base64encode"]
     rule_index(rep, d, [dec, enc] + helpers)
+    # an encoder without the bit accumulator: the groups of characters it emits are decided by bit provenance, and so is their padding
+    rep.group_judged = rule_group(rep, d, enc) if not consts(enc)["init"] else 0
     sentinel = rule_alpha(rep, d, dec, enc, helpers)
     if sentinel is not None:
         rule_stop(rep, d, dec, sentinel)
